@@ -249,6 +249,9 @@ def simplify_math_iterators(source: str) -> str:
         if node.func.id != "sum":
             continue  # The closed forms below are those of sums, len([1, 2, 3]) is not 6
 
+        if any(core.walk(node, ast.BitXor)):
+            continue  # sympy reads the code as text, and in its grammar 7 ^ 3 is 7 ** 3
+
         arg = node.args[0]
         if core.match_template(arg, ast.Call(func=ast.Name(id="range"))):
             if any((node is not arg for node in core.walk(arg, (ast.Attribute, ast.Call)))):
